@@ -48,23 +48,23 @@ Theorem c13_no_early_timeout :
 Proof. exact no_early_timeout. Qed.
 Print Assumptions c13_no_early_timeout.
 
-(* Read / Write, one caller: with the deadline cleared and no wake-up pending the timeout case
-   is disabled; and a timeout before the STORED deadline is possible only while a wake-up is
+(* Read / Write / Accept, one caller: with the deadline cleared and no wake-up pending the timeout
+   case is disabled; and a timeout before the STORED deadline is possible only while a wake-up is
    pending for the call (boundary B11: the select found both ready and picked the timer). *)
 Theorem c13_no_early_timeout_cleared :
   forall (c : caller) (async : bool) (st : state),
-    c <> Accepter -> sreach (sys_1 skel c async) st ->
+    sreach (sys_1 skel c async) st ->
     inv_cleared (sys_1 skel c async) st = true /\
     inv_no_early_quiet (sys_1 skel c async) st = true.
 Proof. exact no_early_cleared. Qed.
 Print Assumptions c13_no_early_timeout_cleared.
 
 (* The strong reading (boundary B11 closed by re-validating the stored deadline when the timer
-   fires): Read / Write return a timeout only when the deadline stored AT THAT MOMENT has
-   passed - any number of callers (thread-modular), one caller, and two callers parked under a
-   deadline that is then extended. *)
+   fires): Read / Write / Accept return a timeout only when the deadline stored AT THAT MOMENT
+   has passed - any number of callers (thread-modular), one caller, and two callers parked under
+   a deadline that is then extended. *)
 Theorem c13_no_early_timeout_strong :
-  forall (c : caller) (async : bool) (st : state), c <> Accepter ->
+  forall (c : caller) (async : bool) (st : state),
     (sreach (sys_tm skel c async) st -> inv_no_early_strong (sys_tm skel c async) st = true) /\
     (sreach (sys_1 skel c async) st -> inv_no_early_strong (sys_1 skel c async) st = true) /\
     (sreach (sys_extend_n skel c 2 async) st -> inv_no_early_strong (sys_extend_n skel c 2 async) st = true).
@@ -74,51 +74,31 @@ Print Assumptions c13_no_early_timeout_strong.
 (* ------------------------------------------------------------------------------------------
    deadline changes while blocked *)
 
-(* Full statement: in every reachable state, a parked call with no wake-up pending and a
-   deadline stored has its timeout case enabled on a timer armed for THAT deadline. *)
-Definition c13_deadline_change_seen : Prop :=
+(* Full statement, every caller kind (F10, F11 and F12 repaired): in every reachable state, a
+   parked call with no wake-up pending and a deadline stored has its timeout case enabled on a
+   timer armed for THAT deadline - whatever SetReadDeadline / SetWriteDeadline /
+   Listener.SetReadDeadline values (none->set, set->later/earlier, set->zero->set, past,
+   cleared) were stored while it was parked - and when the stored deadline has expired the
+   timeout case can fire. *)
+Theorem c13_deadline_change_seen :
   forall (c : caller) (async : bool) (st : state),
-    sreach (sys_1 skel c async) st -> inv_deadline_seen (sys_1 skel c async) st = true.
+    sreach (sys_1 skel c async) st ->
+    inv_deadline_seen (sys_1 skel c async) st = true /\
+    inv_expiry_wakes (sys_1 skel c async) st = true.
+Proof. exact deadline_change_seen_all. Qed.
+Print Assumptions c13_deadline_change_seen.
 
-(* It still fails for AcceptKCP (F10); F11 and F12 are repaired, see c13_deadline_change_seen_rw. *)
-Theorem c13_deadline_change_seen_refuted :
-  reaches (sys_1 skel Accepter false) (fun st => negb (inv_deadline_seen (sys_1 skel Accepter false) st)).
-Proof. exact deadline_full_counterexamples. Qed.
-Print Assumptions c13_deadline_change_seen_refuted.
-
-(* What is provable: a deadline stored before the call, and replaced (later / earlier / already
-   past) while the call is parked - never cleared - is followed, and when it expires the
-   timeout case fires.  For Accept: a deadline stored before the call and left alone. *)
-Theorem c13_deadline_rearm_partial :
+(* The special case of a deadline stored before the call and replaced (later / earlier / already
+   past) while the call is parked - never cleared - in the smaller system without the other
+   setters (kept: it was the provable part before the repairs). *)
+Theorem c13_deadline_rearm :
   forall (c : caller) (async : bool) (st : state),
     sreach (sys_rearm skel c async) st ->
     inv_ok st = true /\
     inv_deadline_seen (sys_rearm skel c async) st = true /\
     inv_expiry_wakes (sys_rearm skel c async) st = true.
 Proof. exact deadline_rearm_partial. Qed.
-Print Assumptions c13_deadline_rearm_partial.
-
-(* F11 and F12 repaired: for Read and Write the full statement holds - every SetReadDeadline /
-   SetWriteDeadline value (none->set, set->later/earlier, set->zero->set, past, cleared) set
-   while the call is parked is followed, and when the stored deadline expires the timeout fires. *)
-Theorem c13_deadline_change_seen_rw :
-  forall (c : caller) (async : bool) (st : state),
-    c <> Accepter -> sreach (sys_1 skel c async) st ->
-    inv_deadline_seen (sys_1 skel c async) st = true /\
-    inv_expiry_wakes (sys_1 skel c async) st = true.
-Proof. exact deadline_change_seen_rw. Qed.
-Print Assumptions c13_deadline_change_seen_rw.
-
-(* F10  AcceptKCP reads the deadline once: set while parked -> never fires; cleared while
-   parked -> still fires. *)
-Theorem c13_accept_deadline_refuted :
-  forall async : bool,
-    witness (sys_none_then_set skel Accepter async) (inv_expiry_wakes (sys_none_then_set skel Accepter async))
-            [LThread 0; LLSetRD DFuture; LTick LRD] /\
-    witness (sys_1 skel Accepter async) (inv_cleared (sys_1 skel Accepter async))
-            [LLSetRD DFuture; LThread 0; LLSetRD DNone].
-Proof. exact accept_deadline_witness. Qed.
-Print Assumptions c13_accept_deadline_refuted.
+Print Assumptions c13_deadline_rearm.
 
 (* ------------------------------------------------------------------------------------------
    close and socket error are broadcast *)
@@ -254,6 +234,11 @@ Example c13_ex_after_close :
 Proof. exact ex_after_close. Qed.
 Example c13_ex_single : forall c, reaches (sys_1 skel c false) (ex_parked_cond (sys_1 skel c false)).
 Proof. exact ex_single. Qed.
+Example c13_ex_accept_rearmed :
+  reaches (sys_1 skel Accepter false)
+          (fun st => existsb (fun t => at_select (sys_1 skel Accepter false) t && timer_follows t &&
+                                       match lrd (sh st) with DFuture => true | _ => false end) (ths st)).
+Proof. exact ex_accept_rearmed. Qed.
 Example c13_ex_rearm : forall c, reaches (sys_rearm skel c false) (ex_rearmed (sys_rearm skel c false)).
 Proof. exact ex_rearm. Qed.
 Example c13_ex_multi_writer_gap :
